@@ -18,10 +18,20 @@
 //        api   public API over inproc: RECVBUF/SENDBUF of cooked (lmq) and
 //              raw (nni_msgq) sockets: fill at offset, resize, drain; refill
 //              capacity; differential capacity; random histories
+//        fan   queues behind a stalled pipe / per receiver (white-box stalling
+//              peer protocol): pub/bus per-pipe queues, sub contexts (own and
+//              inherited depth), send buffers behind an in-flight message,
+//              blocking senders parked behind a full buffer across resizes
+//        live  the depth is changed by the main thread while sender threads
+//              stream and a receiver thread drains (ASan and TSan)
+// lmq / msgq: every second enumerated case is repeated and the queue finished
+// (closed) as the history left it - not drained - with the allocator balance
+// as the verdict; random histories end that way half of the time.
 #include "core/nng_impl.h"
 
 #include "vfh.h"
 
+#include <pthread.h>
 #include <sched.h>
 #include <stdatomic.h>
 #include <unistd.h>
@@ -45,15 +55,41 @@ reg_reset(void)
 	nextseq = 1;
 }
 
+// api / fan / live modes: half of the bodies carry 1..284 more bytes that are
+// keyed by the sequence number, so that damage anywhere in a body of any
+// length (and a wrong length) is seen, not only in the first 16 bytes
+static bool         varlen;
+static _Atomic long long_bodies;
+#define MAXEXTRA 285
+
+static size_t
+extra_len(uint64_t seq)
+{
+	if (!varlen) {
+		return 0;
+	}
+	uint64_t x = vf_mix64(seq ^ MSG_MAGIC);
+	return (x & 1) ? (size_t) ((x >> 8) % MAXEXTRA) : 0;
+}
+
 static nng_msg *
 mk_msg_seq(uint32_t seq)
 {
 	nng_msg *m;
+	size_t   x = extra_len(seq);
 	if (nng_msg_alloc(&m, 0) != 0) {
 		vf_harness_fail("nng_msg_alloc");
 	}
 	nng_msg_append_u64(m, (uint64_t) seq);
 	nng_msg_append_u64(m, ((uint64_t) seq * 0x9e3779b97f4a7c15ULL) ^ MSG_MAGIC);
+	if (x > 0) {
+		uint8_t b[MAXEXTRA];
+		vf_fill(b, x, (uint64_t) seq * 0xc2b2ae3d27d4eb4fULL);
+		if (nng_msg_append(m, b, x) != 0) {
+			vf_harness_fail("nng_msg_append");
+		}
+		atomic_fetch_add(&long_bodies, 1);
+	}
 	return m;
 }
 
@@ -77,7 +113,7 @@ chk_msg(nng_msg *m, uint32_t *seqp)
 {
 	const uint8_t *b = nng_msg_body(m);
 	uint64_t       s = 0, k = 0;
-	if (nng_msg_len(m) != 16) {
+	if (nng_msg_len(m) < 16) {
 		return -1;
 	}
 	for (int i = 0; i < 8; i++) {
@@ -87,8 +123,40 @@ chk_msg(nng_msg *m, uint32_t *seqp)
 	if (s > 0xffffffffu || k != ((s * 0x9e3779b97f4a7c15ULL) ^ MSG_MAGIC)) {
 		return -1;
 	}
+	size_t x = extra_len(s);
+	if (nng_msg_len(m) != 16 + x) {
+		return -1;
+	}
+	if (x > 0) {
+		uint8_t e[MAXEXTRA];
+		vf_fill(e, x, s * 0xc2b2ae3d27d4eb4fULL);
+		if (memcmp(e, b + 16, x) != 0) {
+			return -1;
+		}
+	}
 	*seqp = (uint32_t) s;
 	return 0;
+}
+
+static uint32_t
+be32h(const uint8_t *p)
+{
+	return ((uint32_t) p[0] << 24) | ((uint32_t) p[1] << 16) | ((uint32_t) p[2] << 8) | p[3];
+}
+
+// Protocol header of a message that was sent with the request id
+// 0x80000000|seq: hdr 1: received by the white-box stalling REP peer (the id
+// alone), hdr 2: received from a raw REP socket (pipe id, then the id).
+static bool
+hdr_ok(int hdr, nng_msg *m, uint32_t seq)
+{
+	const uint8_t *h = nng_msg_header(m);
+	size_t         n = nng_msg_header_len(m);
+	switch (hdr) {
+	case 1: return n == 4 && be32h(h) == (0x80000000u | seq);
+	case 2: return n == 8 && (be32h(h) & 0x80000000u) == 0 && be32h(h + 4) == (0x80000000u | seq);
+	default: return true;
+	}
 }
 
 // ------------------------------------------------------------------ candidate sets
@@ -296,6 +364,7 @@ typedef struct {
 	bool dead;     // a violation was reported in this case
 	bool ptrcheck; // messages must come back as the same object
 	int  lane;     // which receiver of a fan-out this model follows (registry column)
+	int  hdr;      // protocol header expected on delivery (hdr_ok)
 	long v0;
 	char hist[320];
 	int  hl;
@@ -303,6 +372,7 @@ typedef struct {
 } model;
 
 static long abandoned;
+static long header_checks;
 
 static void
 m_init(model *M, const char *kind, int cap, int slot, bool ptrcheck)
@@ -411,6 +481,13 @@ m_recv(model *M, nng_msg *m)
 		m_viol(M, "corrupt", "received message with damaged body (len %zu)", nng_msg_len(m));
 		return; // do not free: unknown object
 	}
+	if (!hdr_ok(M->hdr, m, seq)) {
+		m_viol(M, "corrupt/header", "message %u arrived with a damaged protocol header (%zu bytes)", seq, nng_msg_header_len(m));
+		return;
+	}
+	if (M->hdr != 0) {
+		header_checks++;
+	}
 	if (seq >= SENTINEL) {
 		m_viol(M, "order", "sentinel %u overtook queued messages", seq);
 		nng_msg_free(m);
@@ -491,6 +568,8 @@ typedef struct {
 	nni_lmq q;
 	model   M;
 	long    ops;
+	long    live0; // allocator balance when the case began
+	int     held;  // messages in the queue when it was finished
 } lctx;
 
 static void
@@ -498,7 +577,9 @@ l_init(lctx *L, int cap)
 {
 	reg_reset();
 	m_init(&L->M, "lmq", cap, 0, true);
-	L->ops = 0;
+	L->ops   = 0;
+	L->held  = 0;
+	L->live0 = vf_alloc_live_bytes();
 	nni_lmq_init(&L->q, (size_t) cap);
 	m_log(&L->M, "init(%d)", cap);
 	if ((int) nni_lmq_cap(&L->q) != cap) {
@@ -639,7 +720,38 @@ l_flush(lctx *L)
 	l_check(L);
 }
 
-// fill to capacity (checking the bound), drain completely, finish
+// Teardown verdict: whatever a case allocated through the library's
+// allocator (rings, messages, aios) is gone when the queue has been finished,
+// also when it was finished holding messages at a wrapped ring position.
+// (Reading past the ring or freeing a stale cell is ASan's / the accounting
+// allocator's to report.)  Only with the accounting allocator (not TSan).
+static bool alloc_ok;
+
+static void
+alloc_probe(void)
+{
+	long  b = vf_alloc_live_bytes();
+	void *p = nni_alloc(64);
+	alloc_ok = p != NULL && vf_alloc_live_bytes() == b + 64;
+	nni_free(p, 64);
+}
+
+static void
+m_balance(model *M, long live0, int held, const char *what)
+{
+	if (!alloc_ok || m_dead(M)) {
+		return;
+	}
+	long live = vf_alloc_live_bytes();
+	if (live > live0) {
+		m_viol(M, "teardown/leak", "%ld bytes still allocated after %s of a queue holding %d messages", live - live0, what, held);
+	} else if (live < live0) {
+		m_viol(M, "teardown/over-free", "%ld bytes more released than the case allocated (%s of a queue holding %d messages)", live0 - live, what, held);
+	}
+}
+
+// fill to capacity (checking the bound), drain completely, finish;
+// or (drain == false) finish the queue as it is
 static void
 l_fini(lctx *L, bool drain)
 {
@@ -662,13 +774,70 @@ l_fini(lctx *L, bool drain)
 		abandoned++;
 		return;
 	}
+	L->held = (int) nni_lmq_len(&L->q);
+	if (L->held > 0) {
+		// the library frees what is still queued
+		vf_stat("nonempty_fini_cases", 1);
+		vf_stat("nonempty_fini_msgs", L->held);
+		if (L->q.lmq_get + L->q.lmq_len > L->q.lmq_mask + 1) {
+			vf_stat("nonempty_fini_wrapped", 1);
+		}
+	}
 	nni_lmq_fini(&L->q);
+	m_balance(M, L->live0, L->held, "nni_lmq_fini");
+}
+
+// pass 0: the case ends by filling to the brim and draining (order of the
+// survivors, capacity, emptiness); pass 1 (half of the indices): the queue is
+// finished as the history left it - holding messages, at a rotated ring
+// position - and the allocator balance is the verdict
+static bool
+second_pass(long idx)
+{
+	return (vf_mix64((uint64_t) idx * 0x9e3779b97f4a7c15ULL + 18) & 1) != 0;
+}
+
+static void
+lmq_case(long idx, int cap, int off, int fill, int nc, int g, int p, int nc2, int alloc, bool drain)
+{
+	lctx L;
+	vf_case_begin(idx, "lmq cap=%d off=%d fill=%d resize=%d gets=%d puts=%d resize=%d%s", cap, off, fill, nc, g, p, nc2, drain ? "" : " fini-as-is");
+	l_init(&L, cap);
+	for (int i = 0; i < off; i++) {
+		l_put(&L);
+		l_get(&L);
+	}
+	for (int i = 0; i < fill; i++) {
+		l_put(&L);
+	}
+	l_resize(&L, nc);
+	for (int i = 0; i < g; i++) {
+		l_get(&L);
+	}
+	for (int i = 0; i < p; i++) {
+		l_put(&L);
+	}
+	l_resize(&L, nc2);
+	if (!L.M.dead && drain) {
+		vf_class("lmq/cap%d->%d/%s%s/%s", cap, nc, fill == 0 ? "empty" : fill == cap ? "full" : "part", off + fill > alloc ? "-wrapped" : "", fill > nc ? "drop" : "keep");
+	}
+	l_fini(&L, drain);
+	if (!L.M.dead && !drain) {
+		vf_class("lmq/fini-as-is/cap%d->%d->%d/%s", cap, nc, nc2, L.held == 0 ? "empty" : L.held >= nc2 ? "full" : "part");
+	}
+	vf_stat("cases", 1);
+	if (drain) {
+		vf_stat("lmq_cases", 1);
+		if ((idx % 20011) == 0) {
+			vf_sample("{\"queue\":\"lmq\",\"cap\":%d,\"ring_offset\":%d,\"fill\":%d,\"resize\":[%d,%d],\"between\":\"%d gets %d puts\",\"history\":\"%s\"}", cap, off, fill, nc, nc2, g, p, L.M.hist);
+		}
+	}
 }
 
 static void
 run_lmq_exhaustive(void)
 {
-	long idx = 0;
+	long idx = 0, done = 0;
 	int  maxcap = 8, maxnew = 9;
 	for (int cap = 0; cap <= maxcap; cap++) {
 		int alloc = 2;
@@ -683,35 +852,11 @@ run_lmq_exhaustive(void)
 							if ((idx % vf_nshards) != vf_shard || !vf_want_case(idx)) {
 								continue;
 							}
-							int  g = gp / 3, p = gp % 3;
-							lctx L;
-							vf_case_begin(idx, "lmq cap=%d off=%d fill=%d resize=%d gets=%d puts=%d resize=%d", cap, off, fill, nc, g, p, nc2);
-							l_init(&L, cap);
-							for (int i = 0; i < off; i++) {
-								l_put(&L);
-								l_get(&L);
+							lmq_case(idx, cap, off, fill, nc, gp / 3, gp % 3, nc2, alloc, true);
+							if (second_pass(idx)) {
+								lmq_case(idx, cap, off, fill, nc, gp / 3, gp % 3, nc2, alloc, false);
 							}
-							for (int i = 0; i < fill; i++) {
-								l_put(&L);
-							}
-							l_resize(&L, nc);
-							for (int i = 0; i < g; i++) {
-								l_get(&L);
-							}
-							for (int i = 0; i < p; i++) {
-								l_put(&L);
-							}
-							l_resize(&L, nc2);
-							if (!L.M.dead) {
-								vf_class("lmq/cap%d->%d/%s%s/%s", cap, nc, fill == 0 ? "empty" : fill == cap ? "full" : "part", off + fill > alloc ? "-wrapped" : "", fill > nc ? "drop" : "keep");
-							}
-							l_fini(&L, true);
-							vf_stat("cases", 1);
-							vf_stat("lmq_cases", 1);
-							if ((idx % 20011) == 0) {
-								vf_sample("{\"queue\":\"lmq\",\"cap\":%d,\"ring_offset\":%d,\"fill\":%d,\"resize\":[%d,%d],\"between\":\"%d gets %d puts\",\"history\":\"%s\"}", cap, off, fill, nc, nc2, g, p, L.M.hist);
-							}
-							if ((idx & 0x3fff) == 0) {
+							if ((++done & 0x3ff) == 0) {
 								vf_watchdog(120);
 							}
 						}
@@ -822,10 +967,11 @@ run_lmq_random(long base, long cases)
 				l_get(&L);
 			}
 		}
+		bool asis = vf_chance(&r, 1, 2); // finished holding whatever the history left
 		if (!L.M.dead) {
-			vf_class("lmq/random/cap%d/%s", L.M.cap, L.M.resized ? "lossy" : "lossless");
+			vf_class("lmq/random/cap%d/%s%s", L.M.cap, L.M.resized ? "lossy" : "lossless", asis ? "/fini-as-is" : "");
 		}
-		l_fini(&L, true);
+		l_fini(&L, !asis);
 		vf_stat("cases", 1);
 		vf_stat("lmq_random_cases", 1);
 		if ((c % 97) == 0) {
@@ -857,6 +1003,8 @@ typedef struct {
 	int       npool;
 	long      ops;
 	long      blocked_puts, blocked_gets, handoffs, cancels;
+	long      live0; // allocator balance when the case began
+	int       held;  // messages in the ring when the queue was closed / finished
 } qctx;
 
 static nni_aio *
@@ -878,6 +1026,7 @@ q_init(qctx *Q, int cap)
 {
 	reg_reset();
 	memset(Q, 0, sizeof(*Q));
+	Q->live0 = vf_alloc_live_bytes();
 	m_init(&Q->M, "msgq", cap, 1, true);
 	if (nni_msgq_init(&Q->q, (unsigned) cap) != 0) {
 		vf_harness_fail("nni_msgq_init");
@@ -1181,8 +1330,14 @@ q_drain(qctx *Q)
 	}
 }
 
+// drain == true: fill to the brim, refuse one more, drain, prove emptiness,
+// then close and finish.  drain == false: the queue is closed (or, without
+// waiters, finished without a close: fini_only) as the history left it:
+// messages in the ring at a rotated position, puts and gets blocked.  Every
+// waiter fails with NNG_ECLOSED, a put keeps its message, and the allocator
+// balance returns to where the case began.
 static void
-q_fini(qctx *Q, bool drain)
+q_fini(qctx *Q, bool drain, bool fini_only)
 {
 	model *M = &Q->M;
 	if (drain && !m_dead(M)) {
@@ -1205,31 +1360,62 @@ q_fini(qctx *Q, bool drain)
 		abandoned++;
 		return; // leak: the ring may be damaged
 	}
-	nni_msgq_close(Q->q);
-	for (int i = 0; i < Q->nputters; i++) {
+	// (struct nni_msgq is private: the model says what the ring holds)
+	int held = cs_minlen(&M->cs);
+	Q->held  = held;
+	if (held > 0) {
+		vf_stat("nonempty_fini_cases", 1);
+		vf_stat("nonempty_fini_msgs", held);
+	}
+	if (Q->nputters + Q->ngetters > 0) {
+		vf_stat("msgq_close_with_waiters", 1);
+		vf_stat("msgq_close_blocked_puts", Q->nputters);
+		vf_stat("msgq_close_blocked_gets", Q->ngetters);
+		fini_only = false; // finishing a queue with parked aios is not a legal use
+	}
+	if (!fini_only) {
+		nni_msgq_close(Q->q);
+	} else if (held > 0) {
+		vf_stat("msgq_fini_without_close", 1);
+	}
+	for (int i = 0; i < Q->nputters && !M->dead; i++) {
 		waiter *w = &Q->putter[i];
-		nni_aio_wait(w->aio);
+		if (nni_aio_busy(w->aio)) {
+			m_viol(M, "close/waiter-left", "a blocked put is still waiting after nni_msgq_close");
+			break;
+		}
 		nng_msg *m = nni_aio_get_msg(w->aio);
-		if (nni_aio_result(w->aio) == 0 || m == NULL) {
-			m_viol(M, "close", "blocked put finished with %d at close", nni_aio_result(w->aio));
+		if (nni_aio_result(w->aio) != NNG_ECLOSED) {
+			m_viol(M, "close/result", "blocked put finished with %d at close", nni_aio_result(w->aio));
+		} else if (m == NULL || m != reg[w->seq].m) {
+			m_viol(M, "close/message", "put of %u that failed at close no longer owns its message", w->seq);
 		} else {
 			nni_aio_set_msg(w->aio, NULL);
+			reg[w->seq].st[0] = 2;
 			nng_msg_free(m);
 		}
 		Q->pool[Q->npool++] = w->aio;
 	}
-	for (int i = 0; i < Q->ngetters; i++) {
+	for (int i = 0; i < Q->ngetters && !M->dead; i++) {
 		waiter *w = &Q->getter[i];
-		nni_aio_wait(w->aio);
-		if (nni_aio_result(w->aio) == 0) {
-			m_viol(M, "close", "blocked get succeeded at close");
+		if (nni_aio_busy(w->aio)) {
+			m_viol(M, "close/waiter-left", "a blocked get is still waiting after nni_msgq_close");
+			break;
+		}
+		if (nni_aio_result(w->aio) != NNG_ECLOSED) {
+			m_viol(M, "close/result", "blocked get finished with %d at close", nni_aio_result(w->aio));
 		}
 		Q->pool[Q->npool++] = w->aio;
+	}
+	if (M->dead) {
+		abandoned++;
+		return;
 	}
 	for (int i = 0; i < Q->npool; i++) {
 		nni_aio_free(Q->pool[i]);
 	}
 	nni_msgq_fini(Q->q);
+	m_balance(M, Q->live0, held, fini_only ? "nni_msgq_fini" : "nni_msgq_close + nni_msgq_fini");
 }
 
 // store-and-remove n messages to rotate the ring indices
@@ -1255,9 +1441,51 @@ q_rotate(qctx *Q, int n)
 }
 
 static void
+msgq_case(long idx, int cap, int off, int fill, int nc, int g, int p, int nc2, int alloc, bool drain)
+{
+	qctx Q;
+	vf_case_begin(idx, "msgq cap=%d off=%d fill=%d resize=%d gets=%d puts=%d resize=%d%s", cap, off, fill, nc, g, p, nc2, drain ? "" : " close-as-is");
+	q_init(&Q, cap);
+	q_rotate(&Q, off);
+	for (int i = 0; i < fill; i++) {
+		q_tryput(&Q);
+	}
+	q_resize(&Q, nc);
+	for (int i = 0; i < g; i++) {
+		q_aget(&Q);
+	}
+	for (int i = 0; i < p; i++) {
+		// a blocking put when there is no room
+		if (cs_maxlen(&Q.M.cs) < Q.M.cap || Q.ngetters) {
+			q_tryput(&Q);
+		} else {
+			q_aput(&Q);
+		}
+	}
+	q_resize(&Q, nc2);
+	if (!Q.M.dead && drain) {
+		vf_class("msgq/cap%d->%d/%s%s/%s", cap, nc, fill == 0 ? "empty" : fill == cap ? "full" : "part", off + fill > alloc ? "-wrapped" : "", fill > nc + 1 ? "drop" : fill > nc ? "over" : "keep");
+	}
+	int np = Q.nputters, ng = Q.ngetters;
+	// without waiters every other as-is case skips the close
+	bool fo = (vf_mix64((uint64_t) idx * 0x9e3779b97f4a7c15ULL + 18) & 2) != 0;
+	q_fini(&Q, drain, fo);
+	if (!Q.M.dead && !drain) {
+		vf_class("msgq/close-as-is/cap%d->%d->%d/%s/%s", cap, nc, nc2, Q.held == 0 ? "empty" : Q.held >= nc2 ? "full" : "part", np ? "putters" : ng ? "getters" : fo ? "fini-only" : "idle");
+	}
+	vf_stat("cases", 1);
+	if (drain) {
+		vf_stat("msgq_cases", 1);
+		if ((idx % 9973) == 0) {
+			vf_sample("{\"queue\":\"msgq\",\"cap\":%d,\"ring_offset\":%d,\"fill\":%d,\"resize\":[%d,%d],\"between\":\"%d gets %d puts\",\"history\":\"%s\"}", cap, off, fill, nc, nc2, g, p, Q.M.hist);
+		}
+	}
+}
+
+static void
 run_msgq_exhaustive(void)
 {
-	long idx    = 0;
+	long idx    = 0, done = 0;
 	int  maxcap = 8, maxnew = 9;
 	for (int cap = 0; cap <= maxcap; cap++) {
 		int alloc = cap + 2;
@@ -1269,37 +1497,11 @@ run_msgq_exhaustive(void)
 							if ((idx % vf_nshards) != vf_shard || !vf_want_case(idx)) {
 								continue;
 							}
-							int  g = gp / 3, p = gp % 3;
-							qctx Q;
-							vf_case_begin(idx, "msgq cap=%d off=%d fill=%d resize=%d gets=%d puts=%d resize=%d", cap, off, fill, nc, g, p, nc2);
-							q_init(&Q, cap);
-							q_rotate(&Q, off);
-							for (int i = 0; i < fill; i++) {
-								q_tryput(&Q);
+							msgq_case(idx, cap, off, fill, nc, gp / 3, gp % 3, nc2, alloc, true);
+							if (second_pass(idx)) {
+								msgq_case(idx, cap, off, fill, nc, gp / 3, gp % 3, nc2, alloc, false);
 							}
-							q_resize(&Q, nc);
-							for (int i = 0; i < g; i++) {
-								q_aget(&Q);
-							}
-							for (int i = 0; i < p; i++) {
-								// a blocking put when there is no room
-								if (cs_maxlen(&Q.M.cs) < Q.M.cap || Q.ngetters) {
-									q_tryput(&Q);
-								} else {
-									q_aput(&Q);
-								}
-							}
-							q_resize(&Q, nc2);
-							if (!Q.M.dead) {
-								vf_class("msgq/cap%d->%d/%s%s/%s", cap, nc, fill == 0 ? "empty" : fill == cap ? "full" : "part", off + fill > alloc ? "-wrapped" : "", fill > nc + 1 ? "drop" : fill > nc ? "over" : "keep");
-							}
-							q_fini(&Q, true);
-							vf_stat("cases", 1);
-							vf_stat("msgq_cases", 1);
-							if ((idx % 9973) == 0) {
-								vf_sample("{\"queue\":\"msgq\",\"cap\":%d,\"ring_offset\":%d,\"fill\":%d,\"resize\":[%d,%d],\"between\":\"%d gets %d puts\",\"history\":\"%s\"}", cap, off, fill, nc, nc2, g, p, Q.M.hist);
-							}
-							if ((idx & 0xfff) == 0) {
+							if ((++done & 0x3ff) == 0) {
 								vf_watchdog(120);
 							}
 						}
@@ -1347,7 +1549,7 @@ run_msgq_big(long base)
 							vf_class("msgq/big/cap%d->%d->%d/%s", cap, big_b[bi], big_c[ci], off + fill > alloc ? "wrapped" : "flat");
 							vf_stat("big_depth_cases", 1);
 						}
-						q_fini(&Q, true);
+						q_fini(&Q, true, false);
 						vf_stat("cases", 1);
 						vf_watchdog(120);
 					}
@@ -1395,10 +1597,25 @@ run_msgq_random(long base, long cases)
 				q_aget(&Q);
 			}
 		}
-		if (!Q.M.dead) {
-			vf_class("msgq/random/cap%d/%s", Q.M.cap, Q.M.resized ? "lossy" : "lossless");
+		// half of the histories end with a close of the queue as it is, with
+		// one to NWAIT puts or gets left blocked
+		bool asis = vf_chance(&r, 1, 2);
+		if (asis && !Q.M.dead) {
+			int want = (int) vf_range(&r, 1, NWAIT);
+			if (Q.ngetters == 0 && cs_minlen(&Q.M.cs) >= Q.M.cap) {
+				for (int guard = 0; Q.nputters < want && !Q.M.dead && guard < NWAIT; guard++) {
+					q_aput(&Q);
+				}
+			} else if (Q.nputters == 0 && cs_maxlen(&Q.M.cs) == 0) {
+				for (int guard = 0; Q.ngetters < want && !Q.M.dead && guard < NWAIT; guard++) {
+					q_aget(&Q);
+				}
+			}
 		}
-		q_fini(&Q, true);
+		if (!Q.M.dead) {
+			vf_class("msgq/random/cap%d/%s%s", Q.M.cap, Q.M.resized ? "lossy" : "lossless", !asis ? "" : Q.nputters ? "/closed-with-putters" : Q.ngetters ? "/closed-with-getters" : "/closed-as-is");
+		}
+		q_fini(&Q, !asis, false);
 		vf_stat("cases", 1);
 		vf_stat("msgq_random_cases", 1);
 		if ((c % 97) == 0) {
@@ -1534,6 +1751,7 @@ a_open(actx *A, const kind *k, int cap, bool with_peer)
 	char mk[48];
 	snprintf(mk, sizeof(mk), "api/%s", k->name);
 	m_init(&A->M, mk, cap, k->msgq ? 1 : 0, false);
+	A->M.hdr = k->reqhdr ? 2 : 0; // both reqhdr kinds are drained from a raw REP socket
 	if ((rv = k->open_q(&A->q)) != 0) {
 		vf_harness_fail("open %s: %s", k->name, nng_strerror(rv));
 	}
@@ -1717,6 +1935,10 @@ a_drain(actx *A, nng_socket s, nng_socket from)
 		nng_msg *m = nng_aio_get_msg(A->raio);
 		nng_aio_set_msg(A->raio, NULL);
 		if (chk_msg(m, &got) == 0 && got == sseq) {
+			if (!hdr_ok(M->hdr, m, got)) {
+				m_viol(M, "corrupt/header", "message %u arrived with a damaged protocol header (%zu bytes)", got, nng_msg_header_len(m));
+				return;
+			}
 			nng_msg_free(m);
 			quiesce();
 			return;
@@ -2188,12 +2410,6 @@ run_api(void)
 	}
 }
 
-static uint32_t
-be32h(const uint8_t *p)
-{
-	return ((uint32_t) p[0] << 24) | ((uint32_t) p[1] << 16) | ((uint32_t) p[2] << 8) | p[3];
-}
-
 // ==================================================================
 // fan mode: queues that sit behind a pipe, and queues per receiver
 // ==================================================================
@@ -2437,12 +2653,14 @@ typedef struct {
 	int         mincap;
 	bool        reqhdr;
 	bool        ctx; // lanes are contexts of q with their own RECVBUF
+	bool        inherit; // contexts are opened after the socket's RECVBUF was set and are not told their depth
 } fkind;
 
 static const fkind fkinds[] = {
 	{ "pub.sendbuf", nng_pub0_open, stall_sub_open, NNG_OPT_SENDBUF, 2, 1, false, { POL_EVICT_OLD, POL_EVICT_OLD }, 1, false, false },
 	{ "bus.sendbuf", nng_bus0_open, stall_bus_open, NNG_OPT_SENDBUF, 2, 1, false, { POL_DROP_NEW, POL_DROP_NEW }, 1, false, false },
 	{ "sub-ctx.recvbuf", nng_sub0_open, nng_pub0_open, NNG_OPT_RECVBUF, 2, 0, false, { POL_EVICT_OLD, POL_DROP_NEW }, 1, false, true },
+	{ "sub-ctx-inherit.recvbuf", nng_sub0_open, nng_pub0_open, NNG_OPT_RECVBUF, 2, 0, false, { POL_EVICT_OLD, POL_EVICT_OLD }, 1, false, true, true },
 	{ "pair0.sendbuf+pipe", nng_pair0_open, stall_pair0_open, NNG_OPT_SENDBUF, 1, 1, false, { POL_REFUSE, POL_REFUSE }, 0, false, false },
 	{ "pair1.sendbuf+pipe", nng_pair1_open, stall_pair1_open, NNG_OPT_SENDBUF, 1, 1, false, { POL_REFUSE, POL_REFUSE }, 0, false, false },
 	{ "push.sendbuf+pipe", nng_push0_open, stall_pull_open, NNG_OPT_SENDBUF, 1, 1, false, { POL_REFUSE, POL_REFUSE }, 0, false, false },
@@ -2450,6 +2668,7 @@ static const fkind fkinds[] = {
 };
 #define NFKINDS ((int) (sizeof(fkinds) / sizeof(fkinds[0])))
 
+#define NPARK 3
 typedef struct {
 	const fkind *k;
 	nng_socket   q;
@@ -2463,6 +2682,13 @@ typedef struct {
 	char         url[96];
 	_Atomic int  q_pipes;
 	long         msgs, pulls;
+	// blocking sends parked behind a full buffer (+pipe kinds), in posting order
+	struct {
+		nng_aio *aio;
+		uint32_t seq;
+	} park[NPARK];
+	int  npark;
+	long park_woken;
 } fctx;
 
 static void
@@ -2548,6 +2774,7 @@ f_open(fctx *F, const fkind *k, int cap, int order)
 		snprintf(mk, sizeof(mk), "api/%s", k->name);
 		m_init(&F->M[l], mk, cap, k->msgq ? 1 : 0, false);
 		F->M[l].lane = l;
+		F->M[l].hdr  = k->reqhdr ? 1 : 0;
 		if (nng_aio_alloc(&F->raio[l], NULL, NULL) != 0) {
 			vf_harness_fail("nng_aio_alloc");
 		}
@@ -2568,6 +2795,12 @@ f_open(fctx *F, const fkind *k, int cap, int order)
 		vf_harness_fail("listen: %s", nng_strerror(rv));
 	}
 	if (k->ctx) {
+		if (k->inherit) {
+			// the socket's depth is what a context opened from now on starts with
+			if ((rv = nng_socket_set_int(F->q, k->opt, cap)) != 0) {
+				vf_harness_fail("%s set socket %s=%d: %s", k->name, k->opt, cap, nng_strerror(rv));
+			}
+		}
 		for (int l = 0; l < 2; l++) {
 			if ((rv = nng_ctx_open(&F->ctx[l], F->q)) != 0 ||
 			    (rv = nng_sub0_ctx_subscribe(F->ctx[l], "", 0)) != 0) {
@@ -2575,6 +2808,15 @@ f_open(fctx *F, const fkind *k, int cap, int order)
 			}
 			if (k->pol[l] == POL_DROP_NEW && (rv = nng_ctx_set_bool(F->ctx[l], NNG_OPT_SUB_PREFNEW, false)) != 0) {
 				vf_harness_fail("ctx prefnew: %s", nng_strerror(rv));
+			}
+			if (k->inherit) {
+				int got = -1;
+				rv      = nng_ctx_get_int(F->ctx[l], k->opt, &got);
+				m_log(&F->M[l], "inherit(%d)", cap);
+				if (rv != 0 || got != cap) {
+					m_viol(&F->M[l], "cap-not-set/inherited", "context opened after the socket's depth was set to %d reports depth %d (rv %d)", cap, got, rv);
+				}
+				continue; // its depth is judged by what it retains
 			}
 			f_setopt(F, l, cap);
 		}
@@ -2613,6 +2855,13 @@ f_close(fctx *F)
 	if ((m = nng_aio_get_msg(F->saio)) != NULL && nng_aio_result(F->saio) != 0) {
 		nng_msg_free(m);
 	}
+	for (int i = 0; i < F->npark; i++) {
+		nng_aio_stop(F->park[i].aio);
+		if (nng_aio_result(F->park[i].aio) != 0 && (m = nng_aio_get_msg(F->park[i].aio)) != NULL) {
+			nng_msg_free(m);
+		}
+		nng_aio_free(F->park[i].aio);
+	}
 	for (int i = 0; i < F->npeers; i++) {
 		nng_socket_close(F->peer[i]);
 	}
@@ -2621,6 +2870,110 @@ f_close(fctx *F)
 		nng_aio_free(F->raio[l]);
 	}
 	nng_aio_free(F->saio);
+}
+
+// Parked senders (single lane kinds).  After anything that can make room
+// (a resize, a pull) the library is quiescent and we look at which of the
+// parked sends completed.  What the property allows: the survivors of the
+// queue keep their places, then the parked messages enter in posting order,
+// exactly as far as there is room; nobody overtakes, nothing is admitted
+// beyond the depth.  (Fewer admitted than there is room is a liveness matter,
+// not C18's: such a case is counted and no longer judged.)
+static void
+f_park_settle(fctx *F, const char *after)
+{
+	model *M = &F->M[0];
+	if (F->npark == 0 || f_dead(F)) {
+		return;
+	}
+	int  done = 0;
+	bool gap  = false;
+	for (int i = 0; i < F->npark; i++) {
+		if (nng_aio_busy(F->park[i].aio)) {
+			gap = true;
+			continue;
+		}
+		int rv = nng_aio_result(F->park[i].aio);
+		if (rv != 0) {
+			m_viol(M, "send-failed", "parked send of %u failed after %s: %s", F->park[i].seq, after, nng_strerror(rv));
+			return;
+		}
+		if (gap) {
+			m_viol(M, "order/parked-overtaken", "after %s the parked send of %u completed while an earlier one (%u) still waits", after, F->park[i].seq, F->park[0].seq);
+			return;
+		}
+		done++;
+	}
+	cset out;
+	int  emin = NPARK + 1, emax = -1;
+	out.n = 0;
+	for (int i = 0; i < M->cs.n; i++) {
+		dq  t = M->cs.c[i];
+		int e = 0;
+		while (e < F->npark && (t.n < F->k->skip || t.n - F->k->skip < M->cap)) {
+			if (t.n >= QMAX) {
+				vf_harness_fail("model queue overflow");
+			}
+			t.s[t.n++] = F->park[e++].seq;
+		}
+		emin = e < emin ? e : emin;
+		emax = e > emax ? e : emax;
+		if (e == done) {
+			cs_add(&out, &t);
+		}
+	}
+	if (out.n == 0) {
+		if (done > emax) {
+			m_viol(M, "bound/parked-send-accepted-when-full", "after %s %d parked sends completed with room for %d (depth %d)", after, done, emax, M->cap);
+		} else {
+			vf_stat("fan_parked_left_waiting_with_room", 1);
+			m_log(M, "unjudged");
+			M->dead = true; // cannot be followed any further; not a violation
+		}
+		return;
+	}
+	M->cs = out;
+	for (int i = 0; i < done; i++) {
+		m_log(M, "park%u:done", F->park[i].seq);
+		nng_aio_free(F->park[i].aio);
+	}
+	memmove(&F->park[0], &F->park[done], sizeof(F->park[0]) * (size_t) (F->npark - done));
+	F->npark -= done;
+	F->park_woken += done;
+}
+
+// one more blocking send while the buffer is full for certain
+static bool
+f_park(fctx *F)
+{
+	const fkind *k = F->k;
+	model       *M = &F->M[0];
+	if (f_dead(F) || F->npark >= NPARK || k->nlanes != 1 || k->pol[0] != POL_REFUSE || F->rpending[0]) {
+		return false;
+	}
+	if (cs_minlen(&M->cs) < k->skip || cs_minlen(&M->cs) - k->skip < M->cap) {
+		return false; // some legal state has room: it would not (have to) wait
+	}
+	uint32_t seq;
+	nng_msg *m = mk_msg(&seq);
+	nng_aio *a;
+	if (k->reqhdr) {
+		nng_msg_header_append_u32(m, 0x80000000u | seq);
+	}
+	F->msgs++;
+	if (nng_aio_alloc(&a, NULL, NULL) != 0) {
+		vf_harness_fail("nng_aio_alloc");
+	}
+	nng_aio_set_timeout(a, NNG_DURATION_INFINITE);
+	nng_aio_set_msg(a, m);
+	nng_socket_send(F->q, a);
+	quiesce();
+	m_log(M, "park%u", seq);
+	F->park[F->npark].aio = a;
+	F->park[F->npark].seq = seq;
+	F->npark++;
+	f_park_settle(F, "posting it");
+	return !f_dead(F);
 }
 
 // completions of receives that were left waiting
@@ -2642,10 +2995,6 @@ f_settle(fctx *F)
 		nng_aio_set_msg(F->raio[l], NULL);
 		uint32_t x = 0;
 		(void) chk_msg(m, &x);
-		if (F->k->reqhdr && (nng_msg_header_len(m) != 4 || be32h(nng_msg_header(m)) != (0x80000000u | x))) {
-			m_viol(M, "corrupt/header", "message %u arrived with a damaged protocol header", x);
-			continue;
-		}
 		m_log(M, "recv:%u", x);
 		F->pulls++;
 		m_recv(M, m);
@@ -2756,6 +3105,7 @@ f_pull(fctx *F, int l)
 	F->rpending[l] = true;
 	quiesce();
 	f_settle(F);
+	f_park_settle(F, "a message left the pipe");
 	if (f_dead(F)) {
 		return false;
 	}
@@ -2797,6 +3147,11 @@ f_resize(fctx *F, int lane, int newcap)
 	}
 	quiesce();
 	f_settle(F);
+	if (F->npark > 0) {
+		vf_stat("fan_parked_sender_resizes", 1);
+		vf_stat(before > newcap ? "fan_parked_sender_shrinks" : "fan_parked_sender_grows", 1);
+		f_park_settle(F, "the resize");
+	}
 }
 
 // drain every lane, then one more message must reach every waiting receive
@@ -2814,6 +3169,12 @@ f_drain(fctx *F, int first)
 		}
 	}
 	if (f_dead(F)) {
+		return;
+	}
+	if (F->npark > 0) {
+		// the queue ran dry with senders still parked: liveness, not C18's
+		vf_stat("fan_parked_left_waiting_with_room", 1);
+		F->M[0].dead = true;
 		return;
 	}
 	f_send(F);
@@ -2851,7 +3212,9 @@ fan_resize_case(long idx, const fkind *k, int cap, int off, int fill, int nc, in
 	for (int i = 0; i < fill; i++) {
 		f_send(&F); // the last of cap+1 meets a full queue
 	}
-	if (k->ctx) {
+	if (k->inherit) {
+		f_resize(&F, 0, nc); // the other context is never told a depth: it retains what it inherited
+	} else if (k->ctx) {
 		f_resize(&F, 0, nc);
 		f_resize(&F, 1, (nc + 2) % 7 + 1); // the other context gets another depth
 	} else {
@@ -2868,13 +3231,58 @@ fan_resize_case(long idx, const fkind *k, int cap, int off, int fill, int nc, in
 		vf_class("fan/%s/cap%d->%d/%s%s/order%d", k->name, cap, nc, fill == 0 ? "empty" : fill == cap ? "full" : fill > cap ? "full+1" : "part", off ? "-rotated" : "", order);
 		vf_stat("fan_resize_cases", 1);
 		if (k->nlanes > 1) {
-			vf_stat(k->ctx ? "fan_ctx_cases" : "fan_two_pipe_cases", 1);
+			vf_stat(k->inherit ? "fan_ctx_inherit_cases" : k->ctx ? "fan_ctx_cases" : "fan_two_pipe_cases", 1);
 		} else {
 			vf_stat("fan_sendbuf_behind_pipe_cases", 1);
 		}
 	}
 	if ((idx % 173) == 0) {
 		vf_sample("{\"socket\":\"%s\",\"depth\":%d,\"ring_offset\":%d,\"queued\":%d,\"new_depth\":%d,\"set_after_first_pipe\":%d,\"lane0\":\"%s\"}", k->name, cap, off, fill, nc, order, F.M[0].hist);
+	}
+	f_close(&F);
+	vf_stat("cases", 1);
+}
+
+// senders parked behind a full buffer while the depth changes
+static void
+fan_parked_case(long idx, const fkind *k, int cap, int off, int np, int nc1, int g, int nc2)
+{
+	fctx F;
+	vf_case_begin(idx, "fan parked %s cap=%d off=%d parked=%d resize=%d pulls=%d resize=%d", k->name, cap, off, np, nc1, g, nc2);
+	f_open(&F, k, cap, (int) (idx & 1));
+	f_send(&F); // into the pipe's send slot
+	for (int i = 0; i < off && cap > 0; i++) {
+		f_send(&F);
+		f_pull(&F, 0);
+	}
+	for (int i = 0; i < cap; i++) {
+		f_send(&F);
+	}
+	for (int i = 0; i < np; i++) {
+		(void) f_park(&F);
+	}
+	if (!f_dead(&F) && F.npark != np) {
+		// (a parked send that went through at once was judged in f_park_settle)
+		vf_harness_fail("model: %d of %d sends parked", F.npark, np);
+	}
+	f_resize(&F, 0, nc1);
+	for (int i = 0; i < g; i++) {
+		f_pull(&F, 0);
+	}
+	f_resize(&F, 0, nc2);
+	int left = F.npark;
+	f_resize(&F, 0, 9); // room for everybody
+	if (!f_dead(&F) && F.npark != 0) {
+		vf_harness_fail("model: parked senders left with room for all");
+	}
+	f_drain(&F, 0);
+	if (!f_dead(&F)) {
+		vf_class("fan/parked/%s/cap%d->%d->%d/parked%d/pulls%d/%s", k->name, cap, nc1, nc2, np, g, left ? "some-wait-to-the-end" : "all-admitted-early");
+		vf_stat("fan_parked_cases", 1);
+		vf_stat("fan_parked_woken", F.park_woken);
+	}
+	if ((idx % 173) == 0) {
+		vf_sample("{\"socket\":\"%s\",\"depth\":%d,\"parked_senders\":%d,\"resizes\":[%d,%d,9],\"history\":\"%s\"}", k->name, cap, np, nc1, nc2, F.M[0].hist);
 	}
 	f_close(&F);
 	vf_stat("cases", 1);
@@ -2941,8 +3349,12 @@ fan_random_case(long idx, const fkind *k, vf_rng *r)
 		}
 		if (x < 12) {
 			f_resize(&F, (int) vf_below(r, (uint32_t) k->nlanes), (int) vf_range(r, (uint32_t) k->mincap, 10));
-		} else if (x < 62) {
+		} else if (x < 56) {
 			f_send(&F);
+		} else if (x < 62) {
+			if (!f_park(&F)) {
+				f_send(&F);
+			}
 		} else {
 			f_pull(&F, (int) vf_below(r, (uint32_t) k->nlanes));
 		}
@@ -2986,6 +3398,36 @@ run_fan(void)
 			}
 		}
 	}
+	// senders parked behind a full buffer (and a stalled pipe) while the depth
+	// grows / shrinks / grows
+	idx = 1000000;
+	static const int park_nc2[] = { 0, 1, 3, 6 };
+	for (int ki = 0; ki < NFKINDS; ki++) {
+		const fkind *k = &fkinds[ki];
+		if (k->nlanes != 1 || k->pol[0] != POL_REFUSE) {
+			continue;
+		}
+		for (int cap = 0; cap <= 3; cap++) {
+			for (int off = 0; off < 2; off++) {
+				for (int np = 1; np <= NPARK; np++) {
+					for (int nc1 = 0; nc1 <= 5; nc1++) {
+						for (int g = 0; g < 3; g++) {
+							for (int i2 = 0; i2 < 4; i2++, idx++) {
+								if ((idx % vf_nshards) != vf_shard || !vf_want_case(idx)) {
+									continue;
+								}
+								if (!vf_tier && (vf_mix64((uint64_t) idx + vf_seed) & 1)) {
+									continue; // quick: a seed-dependent half
+								}
+								fan_parked_case(idx, k, cap, off, np, nc1, g, park_nc2[i2]);
+								vf_watchdog(120);
+							}
+						}
+					}
+				}
+			}
+		}
+	}
 	idx = 1500000;
 	for (int ki = 0; ki < NFKINDS; ki++, idx++) {
 		if ((idx % vf_nshards) != vf_shard || !vf_want_case(idx)) {
@@ -3006,11 +3448,414 @@ run_fan(void)
 	}
 }
 
+
+// ==================================================================
+// live mode: the depth changes *while* messages flow
+// ==================================================================
+// Everything above resizes at quiescence on one thread.  Here one or two
+// sender threads stream sequence-tagged messages, a receiver thread drains
+// (with pauses, so that the queues fill), and the main thread sets the buffer
+// option to random depths every 50-500 us (paced by deliveries, so that it
+// interleaves with traffic on a loaded machine too).  Judged is only what no correct
+// run can break, whatever the interleaving:
+//   * per sending thread the received sequence is strictly increasing (a FIFO
+//     neither reorders nor duplicates), bodies and protocol headers are intact;
+//   * the option reads back what was last set;
+//   * on protocols with back pressure (nothing is ever dropped for lack of
+//     room) the number of accepted sends that never arrive - counted after
+//     the senders stopped and the receiver found the socket dry at quiescence -
+//     is at most the sum over the shrinking resizes of (old depth - new
+//     depth): a resize discards only as many as no longer fit.  A third of the
+//     cases only ever grows the depth: there nothing may be lost at all.
+// Under TSan the same run shows a setter that touches the ring without the
+// lock the data path takes.
+typedef struct {
+	const char *name;
+	int (*open_q)(nng_socket *);    // the socket whose option is set
+	int (*open_peer)(nng_socket *);
+	const char *opt;
+	bool        recv_side; // q receives and the peer sends, or the other way round
+	bool        lossless;
+	int         mincap;
+	bool        reqhdr;
+	bool        subscribe; // the receiving socket must subscribe
+} lkind;
+
+static const lkind lkinds[] = {
+	{ "pair0.sendbuf", nng_pair0_open, nng_pair0_open, NNG_OPT_SENDBUF, false, true, 0, false, false },
+	{ "pair1.sendbuf", nng_pair1_open, nng_pair1_open, NNG_OPT_SENDBUF, false, true, 0, false, false },
+	{ "push.sendbuf", nng_push0_open, nng_pull0_open, NNG_OPT_SENDBUF, false, true, 0, false, false },
+	{ "xreq.sendbuf", nng_req0_open_raw, nng_rep0_open_raw, NNG_OPT_SENDBUF, false, true, 0, true, false },
+	{ "pair0.recvbuf", nng_pair0_open, nng_pair0_open, NNG_OPT_RECVBUF, true, true, 0, false, false },
+	{ "pair1.recvbuf", nng_pair1_open, nng_pair1_open, NNG_OPT_RECVBUF, true, true, 0, false, false },
+	{ "xrep.recvbuf", nng_rep0_open_raw, nng_req0_open_raw, NNG_OPT_RECVBUF, true, true, 0, true, false },
+	{ "sub.recvbuf", nng_sub0_open, nng_pub0_open, NNG_OPT_RECVBUF, true, false, 1, false, true },
+	{ "xsub.recvbuf", nng_sub0_open_raw, nng_pub0_open, NNG_OPT_RECVBUF, true, false, 0, false, false },
+	{ "bus.recvbuf", nng_bus0_open, nng_bus0_open, NNG_OPT_RECVBUF, true, false, 1, false, false },
+	{ "pub.sendbuf", nng_pub0_open, nng_sub0_open, NNG_OPT_SENDBUF, false, false, 1, false, true },
+	{ "bus.sendbuf", nng_bus0_open, nng_bus0_open, NNG_OPT_SENDBUF, false, false, 1, false, false },
+};
+#define NLKINDS ((int) (sizeof(lkinds) / sizeof(lkinds[0])))
+#define LIVE_STREAMS 2
+#define LIVE_MAXMSGS 0xfffff0
+
+typedef struct live live;
+typedef struct {
+	live    *L;
+	int      stream;
+	long     sent;     // accepted sends (read by main after join)
+	long     timeouts; // sends that gave up after 10 s without room
+	int      err;      // a send failed otherwise
+} lsender;
+
+struct live {
+	const lkind *k;
+	nng_socket   q, peer, snd, rcv;
+	int          nstreams;
+	_Atomic bool stop_send, stop_recv;
+	_Atomic int  q_pipes, peer_pipes;
+	_Atomic long progress; // messages delivered so far (paces the resizer)
+	lsender      sender[LIVE_STREAMS];
+	// receiver's (then main's) view
+	long     last[LIVE_STREAMS];
+	long     got[LIVE_STREAMS];
+	bool     dead;
+	uint64_t pause_seed;
+};
+
+static void
+live_pipe_cb_q(nng_pipe p, nng_pipe_ev ev, void *arg)
+{
+	live *L = arg;
+	(void) p;
+	atomic_fetch_add(&L->q_pipes, ev == NNG_PIPE_EV_ADD_POST ? 1 : -1);
+}
+
+static void
+live_pipe_cb_peer(nng_pipe p, nng_pipe_ev ev, void *arg)
+{
+	live *L = arg;
+	(void) p;
+	atomic_fetch_add(&L->peer_pipes, ev == NNG_PIPE_EV_ADD_POST ? 1 : -1);
+}
+
+static void live_viol(live *L, const char *clause, const char *fmt, ...) __attribute__((format(printf, 3, 4)));
+static void
+live_viol(live *L, const char *clause, const char *fmt, ...)
+{
+	char    key[128], b[400];
+	va_list ap;
+	va_start(ap, fmt);
+	vsnprintf(b, sizeof(b), fmt, ap);
+	va_end(ap);
+	snprintf(key, sizeof(key), "C18/live/%s/%s", L->k->name, clause);
+	vf_violation(key, "%s", b);
+	L->dead = true;
+}
+
+// one delivered message (receiver thread, later the main thread)
+static void
+live_judge(live *L, nng_msg *m)
+{
+	uint32_t seq;
+	if (chk_msg(m, &seq) != 0) {
+		live_viol(L, "corrupt", "received a message with a damaged body (len %zu) while the depth was being changed", nng_msg_len(m));
+		return; // unknown object: not freed
+	}
+	int  st = (int) (seq >> 24);
+	long n  = (long) (seq & 0xffffff);
+	if (st >= L->nstreams || n == 0) {
+		live_viol(L, "corrupt", "received a message with sequence word %#x that nobody sent", seq);
+		return;
+	}
+	if (!hdr_ok(L->k->reqhdr ? 2 : 0, m, seq)) {
+		live_viol(L, "corrupt/header", "message %ld of sender %d arrived with a damaged protocol header (%zu bytes)", n, st, nng_msg_header_len(m));
+		return;
+	}
+	if (n == L->last[st]) {
+		live_viol(L, "duplicate", "message %ld of sender %d was delivered twice", n, st);
+		return; // may be the same object: not freed again
+	}
+	if (n < L->last[st]) {
+		live_viol(L, "order", "message %ld of sender %d was delivered after message %ld", n, st, L->last[st]);
+	}
+	L->last[st] = n > L->last[st] ? n : L->last[st];
+	L->got[st]++;
+	atomic_fetch_add(&L->progress, 1);
+	nng_msg_free(m);
+}
+
+static void *
+live_sender(void *arg)
+{
+	lsender *S = arg;
+	live    *L = S->L;
+	while (!atomic_load(&L->stop_send) && S->sent < LIVE_MAXMSGS) {
+		uint32_t seq = ((uint32_t) S->stream << 24) | (uint32_t) (S->sent + 1);
+		nng_msg *m   = mk_msg_seq(seq);
+		if (L->k->reqhdr) {
+			nng_msg_header_append_u32(m, 0x80000000u | seq);
+		}
+		int rv = nng_sendmsg(L->snd, m, 0);
+		if (rv == 0) {
+			S->sent++;
+			if (!L->k->lossless) {
+				sched_yield(); // nothing ever holds this sender back
+			}
+			continue;
+		}
+		nng_msg_free(m);
+		if (rv == NNG_ETIMEDOUT) {
+			S->timeouts++; // not accepted; the same number is offered again
+			continue;
+		}
+		S->err = rv;
+		break;
+	}
+	return NULL;
+}
+
+static void *
+live_receiver(void *arg)
+{
+	live    *L = arg;
+	uint64_t x = L->pause_seed | 1;
+	long     n = 0;
+	for (;;) {
+		nng_msg *m  = NULL;
+		int      rv = nng_recvmsg(L->rcv, &m, 0);
+		if (rv == 0) {
+			live_judge(L, m);
+			if (L->dead) {
+				break;
+			}
+			// let the queues fill now and then
+			x = vf_mix64(x + (uint64_t) n);
+			if ((++n & 15) == 0 && (x & 3) != 0) {
+				vf_usleep((int) ((x >> 8) % 300));
+			}
+			continue;
+		}
+		if (rv != NNG_ETIMEDOUT) {
+			live_viol(L, "recv-failed", "receive failed: %s", nng_strerror(rv));
+			break;
+		}
+		if (atomic_load(&L->stop_recv)) {
+			break;
+		}
+	}
+	return NULL;
+}
+
+static void
+live_wait(_Atomic int *v, int want, const char *what)
+{
+	uint64_t end = vf_now_ns() + 20000000000ULL;
+	while (atomic_load(v) != want) {
+		if (vf_now_ns() > end) {
+			vf_harness_fail("timeout waiting for %s", what);
+		}
+		vf_usleep(50);
+	}
+}
+
+static void
+live_case(long idx, const lkind *k, vf_rng *r)
+{
+	static live Ls;
+	live       *L = &Ls;
+	int         rv;
+	char        url[96];
+	memset(L, 0, sizeof(*L));
+	L->k        = k;
+	L->nstreams = (int) vf_range(r, 1, LIVE_STREAMS);
+	bool grow_only = vf_below(r, 3) == 0;
+	int  nresize   = (int) vf_range(r, 60, 240);
+	int  depth     = (int) vf_range(r, (uint32_t) k->mincap, 6);
+	L->pause_seed  = vf_rand(r);
+	vf_case_begin(idx, "live %s senders=%d resizes=%d %s", k->name, L->nstreams, nresize, grow_only ? "grow-only" : "any");
+	if ((rv = k->open_q(&L->q)) != 0 || (rv = k->open_peer(&L->peer)) != 0) {
+		vf_harness_fail("open %s: %s", k->name, nng_strerror(rv));
+	}
+	L->snd = k->recv_side ? L->peer : L->q;
+	L->rcv = k->recv_side ? L->q : L->peer;
+	nng_pipe_notify(L->q, NNG_PIPE_EV_ADD_POST, live_pipe_cb_q, L);
+	nng_pipe_notify(L->q, NNG_PIPE_EV_REM_POST, live_pipe_cb_q, L);
+	nng_pipe_notify(L->peer, NNG_PIPE_EV_ADD_POST, live_pipe_cb_peer, L);
+	nng_pipe_notify(L->peer, NNG_PIPE_EV_REM_POST, live_pipe_cb_peer, L);
+	nng_socket_set_ms(L->snd, NNG_OPT_SENDTIMEO, 10000);
+	nng_socket_set_ms(L->rcv, NNG_OPT_RECVTIMEO, 50);
+	if (k->subscribe && (rv = nng_sub0_socket_subscribe(L->rcv, "", 0)) != 0) {
+		vf_harness_fail("subscribe: %s", nng_strerror(rv));
+	}
+	if (!k->recv_side) {
+		// the receiving socket's own buffer: tiny where back pressure has to
+		// reach the send buffer under test, large where it would only drop
+		(void) nng_socket_set_int(L->peer, NNG_OPT_RECVBUF, k->lossless ? 1 : 4096);
+	}
+	if ((rv = nng_socket_set_int(L->q, k->opt, depth)) != 0) {
+		vf_harness_fail("%s set %s=%d: %s", k->name, k->opt, depth, nng_strerror(rv));
+	}
+	vf_url(VF_T_INPROC, url, sizeof(url));
+	if ((rv = nng_listen(L->q, url, NULL, 0)) != 0 || (rv = nng_dial(L->peer, url, NULL, 0)) != 0) {
+		vf_harness_fail("connect: %s", nng_strerror(rv));
+	}
+	live_wait(&L->q_pipes, 1, "pipe");
+	live_wait(&L->peer_pipes, 1, "peer pipe");
+	quiesce();
+
+	pthread_t ts[LIVE_STREAMS], tr;
+	for (int i = 0; i < L->nstreams; i++) {
+		L->sender[i].L      = L;
+		L->sender[i].stream = i;
+		if (pthread_create(&ts[i], NULL, live_sender, &L->sender[i]) != 0) {
+			vf_harness_fail("pthread_create");
+		}
+	}
+	if (pthread_create(&tr, NULL, live_receiver, L) != 0) {
+		vf_harness_fail("pthread_create");
+	}
+
+	// the resizer
+	long allowed = 0, shrinks = 0, done = 0;
+	bool notset  = false;
+	int  got     = -1;
+	for (int i = 0; i < nresize && !notset; i++) {
+		int      nd;
+		uint32_t x = vf_below(r, 100);
+		if (grow_only) {
+			nd = depth + (int) vf_below(r, 3);
+			nd = nd > 8192 ? 8192 : nd;
+		} else if (x < 8) {
+			nd = x < 4 ? 64 : 1000;
+		} else if (x < 30) {
+			nd = k->mincap;
+		} else {
+			nd = (int) vf_range(r, (uint32_t) k->mincap, 12);
+		}
+		if ((rv = nng_socket_set_int(L->q, k->opt, nd)) != 0) {
+			vf_harness_fail("%s set %s=%d: %s", k->name, k->opt, nd, nng_strerror(rv));
+		}
+		if (nng_socket_get_int(L->q, k->opt, &got) != 0 || got != nd) {
+			notset = true;
+		}
+		if (nd < depth) {
+			allowed += depth - nd;
+			shrinks++;
+		}
+		depth = nd;
+		done++;
+		// the next resize comes 50-500 us later, and (so that resizes and
+		// traffic interleave on a busy machine too) not before a few more
+		// messages were delivered - or 20 ms passed without any
+		long     want = atomic_load(&L->progress) + (long) vf_below(r, 12);
+		uint64_t end  = vf_now_ns() + 20000000ULL;
+		vf_usleep((int) vf_range(r, 50, 500));
+		while (atomic_load(&L->progress) < want && vf_now_ns() < end) {
+			vf_usleep(50);
+		}
+	}
+	atomic_store(&L->stop_send, true);
+	for (int i = 0; i < L->nstreams; i++) {
+		pthread_join(ts[i], NULL);
+	}
+	atomic_store(&L->stop_recv, true);
+	pthread_join(tr, NULL);
+	if (notset && !L->dead) {
+		live_viol(L, "cap-not-set", "option reads back %d after it was set to %d", got, depth);
+	}
+	// what is still under way: the main thread receives until the socket is
+	// dry with the library quiescent
+	nng_aio *ra = NULL;
+	if (nng_aio_alloc(&ra, NULL, NULL) != 0) {
+		vf_harness_fail("nng_aio_alloc");
+	}
+	nng_aio_set_timeout(ra, NNG_DURATION_INFINITE);
+	long tail = 0;
+	while (!L->dead) {
+		nng_socket_recv(L->rcv, ra);
+		quiesce();
+		if (nng_aio_busy(ra)) {
+			nng_aio_cancel(ra);
+			nng_aio_wait(ra);
+		}
+		if (nng_aio_result(ra) != 0) {
+			break; // dry
+		}
+		nng_msg *m = nng_aio_get_msg(ra);
+		nng_aio_set_msg(ra, NULL);
+		live_judge(L, m);
+		tail++;
+	}
+	long sent = 0, recvd = 0, timeouts = 0;
+	for (int i = 0; i < L->nstreams; i++) {
+		sent += L->sender[i].sent;
+		recvd += L->got[i];
+		timeouts += L->sender[i].timeouts;
+		if (L->sender[i].err != 0 && !L->dead) {
+			live_viol(L, "send-failed", "send failed while the depth was being changed: %s", nng_strerror(L->sender[i].err));
+		}
+		if (!L->dead && L->last[i] > L->sender[i].sent) {
+			live_viol(L, "phantom", "received message %ld of sender %d, who got only %ld accepted", L->last[i], i, L->sender[i].sent);
+		}
+	}
+	if (!L->dead && k->lossless && sent - recvd > allowed) {
+		live_viol(L, allowed == 0 ? "lost/no-shrink" : "lost/more-than-shrunk",
+		    "%ld of %ld accepted messages never arrived; the %ld shrinking resizes took away room for %ld in total", sent - recvd, sent, shrinks, allowed);
+	}
+	vf_stat("live_resizes", done);
+	vf_stat("live_shrinks", shrinks);
+	vf_stat("live_msgs", recvd);
+	vf_stat("live_sent", sent);
+	vf_stat("live_tail_msgs", tail);
+	vf_stat("live_send_timeouts", timeouts);
+	if (k->lossless) {
+		vf_stat("live_lossless_dropped", sent - recvd);
+		vf_stat("live_lossless_msgs", recvd);
+	}
+	if (!L->dead && recvd > 0) {
+		vf_class("live/%s/%s/%s", k->name, grow_only ? "grow-only" : "any-depth", L->nstreams > 1 ? "two-senders" : "one-sender");
+		vf_stat("live_cases", 1);
+		if (grow_only && k->lossless) {
+			vf_stat("live_grow_only_lossless_cases", 1);
+		}
+	}
+	if ((idx % 7) == 0) {
+		vf_sample("{\"live\":\"%s\",\"senders\":%d,\"resizes\":%ld,\"shrinks\":%ld,\"accepted\":%ld,\"received\":%ld,\"after_stop\":%ld,\"room_taken_away\":%ld}", k->name, L->nstreams, done, shrinks, sent, recvd, tail, allowed);
+	}
+	if (L->dead) {
+		abandoned++;
+		return; // leave the sockets alone
+	}
+	nng_aio_free(ra);
+	nng_socket_close(L->peer);
+	nng_socket_close(L->q);
+	vf_stat("cases", 1);
+}
+
+static void
+run_live(void)
+{
+	vf_rng r;
+	long   idx = 3000000;
+	for (long c = 0; c < vf_cases; c++, idx++) {
+		if (!vf_want_case(idx)) {
+			continue;
+		}
+		vf_rng_seed(&r, vf_seed, (uint64_t) idx);
+		// every worker walks the kinds round-robin from a start of its own
+		// (a function of its seed, so that --only replays the same kind)
+		live_case(idx, &lkinds[(c + (long) (vf_mix64(vf_seed) % NLKINDS)) % NLKINDS], &r);
+		vf_watchdog(120);
+	}
+}
+
 int
 main(int argc, char **argv)
 {
 	vf_init(argc, argv);
 	vf_nng_init(2, 1, 1);
+	alloc_probe();
 	if (!strcmp(vf_mode, "lmq")) {
 		run_lmq_exhaustive();
 		run_lmq_big(20000000);
@@ -3020,13 +3865,20 @@ main(int argc, char **argv)
 		run_msgq_big(20000000);
 		run_msgq_random(10000000, vf_cases);
 	} else if (!strcmp(vf_mode, "api")) {
+		varlen = true;
 		run_api();
 	} else if (!strcmp(vf_mode, "fan")) {
+		varlen = true;
 		run_fan();
+	} else if (!strcmp(vf_mode, "live")) {
+		varlen = true;
+		run_live();
 	} else {
 		vf_harness_fail("unknown mode '%s'", vf_mode);
 	}
 	vf_stat("abandoned_after_violation", abandoned);
+	vf_stat("long_bodies", atomic_load(&long_bodies));
+	vf_stat("header_checks", header_checks);
 	if (abandoned) {
 		// queues (and sockets) abandoned after a violation may hold a
 		// damaged ring: they are leaked on purpose and never walked again
